@@ -54,6 +54,24 @@ def dirdiff_histories():
                     c2 = b.conn("app", "s2")
                     b.send(c2, type="allocate")
                 _dd.append((b.h, ["app", "app2", "äpp"]))
+    # many other apps come and go between a client's bind and its first command (whatever the server keeps per app
+    # in memory must not be reclaimed while a connection of the app is bound)
+    for nbulk in (300, 1100):
+        b = HB()
+        b1 = b.conn("app", "s1")
+        for i in range(nbulk):
+            c = b.conn("bulk-%d" % i, "s1")
+            if i % 100 == 7:
+                b.send(c, type="claim", nameplate="4")
+        b.send(b1, type="claim", nameplate="4")
+        b.send(b1, type="open", mailbox={"$claimed": b1})
+        b2 = b.conn("app", "s2")
+        b.send(b2, type="claim", nameplate="4")
+        b.send(b2, type="open", mailbox={"$claimed": b2})
+        b.add(b2, "pake")
+        b.add(b1, "pake")
+        b.send(b2, type="list")
+        _dd.append((b.h, ["app"]))
     return _dd
 
 
@@ -102,7 +120,8 @@ def run_job(pid, job, acc):
     if job["kind"] == "dirdiff":
         hist, apps = dirdiff_histories()[job["i"]]
         s = 0
-        cfg = Config(usage=bool(job["i"] % 2), allow_list=bool(job["i"] % 3))
+        # (the bulk histories run without a usage db: per-step dumps of a growing client_versions table are quadratic)
+        cfg = Config(usage=bool(job["i"] % 2) and len(hist) < 500, allow_list=bool(job["i"] % 3))
     else:
         s = job["seed"]
         hist, apps = gen_hist(s)
